@@ -6,6 +6,9 @@ Definition run_line (l : bytes) : bytes :=
   match fields l with
   | kind :: args =>
       if beq kind (s2b "pfx") then run_pfx args
+      else if beq kind (s2b "rel") then run_rel args
+      else if beq kind (s2b "cur") then run_cur args
+      else if beq kind (s2b "pcur") then run_pcur args
       else if beq kind (s2b "res") then run_res args
       else if beq kind (s2b "p5") then run_p5 args
       else if beq kind (s2b "rds") then run_rds args
